@@ -223,6 +223,31 @@ Section Member.
     pose proof (zlen_nonneg (zstr (h_comment h))). lia.
   Qed.
 
+  (** writeBlock for any header and any block: what the size check does. *)
+  Lemma member_bs_fields lvl h s0 s1 p :
+    firstn 4 (skipn 12 (member_bs lvl h s0 s1 p)) = [66; 67; 2; 0]
+    /\ getz (member_bs lvl h s0 s1 p) 16 = s0 /\ getz (member_bs lvl h s0 s1 p) 17 = s1.
+  Proof.
+    rewrite member_bs_shape. unfold pre12, le32, le16. cbn [app]. unfold getz.
+    change (Z.to_nat 16) with 16%nat. change (Z.to_nat 17) with 17%nat. cbn [nth skipn firstn]. auto.
+  Qed.
+
+  Lemma write_block_spec pm guard ovf lvl h p :
+    patch_at_12 pm guard -> hdr_err h = false ->
+    write_block deflate crc32 pm guard ovf lvl h [] p =
+      let size := zlen (raw_member deflate crc32 lvl h p) - 1 in
+      if ovf && (bgzf_MaxBlockSize <=? size) then Err 5
+      else Ok (member_bs lvl h (size mod 256) ((size / 256) mod 256) p).
+  Proof.
+    intros Hpa Hl. unfold write_block. rewrite Hl. cbn [app]. unfold finish_block.
+    rewrite raw_member_shape at 1.
+    assert (H12 : zlen (pre12 lvl h) = 12) by reflexivity.
+    rewrite (Hpa (pre12 lvl h) 0 0 _ H12). cbv zeta.
+    destruct (ovf && (bgzf_MaxBlockSize <=? zlen (raw_member deflate crc32 lvl h p) - 1)); [reflexivity|].
+    rewrite raw_member_shape at 1. rewrite patch_16_17 by assumption.
+    rewrite member_bs_shape. reflexivity.
+  Qed.
+
 End Member.
 
 Section Bound.
